@@ -92,11 +92,18 @@ def apply_ops(o, sc, counter):
             elif op[0] == "atol":
                 o.atol = op[1]; settings["atol"] = op[1]
             elif op[0] == "method":
+                # the kick mask travels with the integrator: it survives a change of method only if the method that is replaced was a
+                # splitting scheme (set_method takes the mask from the current integrator)
+                if not getattr(I, settings["method"]).symplectic or not hasattr(o.integrator, "staggered_mask"):
+                    settings["kick"] = None
                 o.set_method(getattr(I, op[1])); settings["method"] = op[1]
             elif op[0] == "tf":
                 o.tf = op[1]; settings["tf"] = op[1]
             elif op[0] == "kick":
-                o.set_kick_vars(np.array(op[1])); settings["kick"] = op[1]
+                # documented: "Does nothing if integrator is not symplectic"
+                o.set_kick_vars(np.array(op[1]))
+                if hasattr(o.integrator, "staggered_mask"):
+                    settings["kick"] = op[1]
             elif op[0] == "events":
                 o.integrate(events=[ev_cross] if op[1] == "terminal" else [ev_nonterm])
             elif op[0] == "fault":
